@@ -302,6 +302,7 @@ class FrameKind(Kind):
     op = "c11_frame"
 
     def ctor(self, a, conf=None): return c17._frame(a)
+    def decoded(self, a, f): return _frame_from_decoder(a, f)      # (block "DECODED USLP FRAMES" at the end of the file)
 
     def apply(self, f, s):
         if s["set"] == "tfdz":
@@ -2468,6 +2469,7 @@ class C11(Prop):
         for _ in range(60 if thorough else 12):
             for kind in INPUT_BUILDERS:
                 yield Case({"op": "c11_inputs", "kind": kind, **self.input_args(kind, rng)}, "valid", tag=f"inputs-{kind}")
+        yield from decoded_frame_cases(rng, thorough)      # 6. (block "DECODED USLP FRAMES" at the end of the file)
 
     def recoded_cases(self, rng: random.Random, thorough: bool) -> Iterator[Case]:
         """setter arguments that compare equal (==) to the value they replace but encode differently: entity IDs with the
@@ -2626,3 +2628,90 @@ class C11(Prop):
 
 
 PROP = C11()
+
+
+# ============================================================================================
+# BEGIN block DECODED USLP FRAMES (harden-V) - self-contained; used by FrameKind.decoded and by one line of C11.cases
+#
+# "All initial objects of every mutable packet class": a frame a RECEIVER holds comes out of TransferFrame.unpack (or its
+# data field out of TransferFrameDataField.unpack), not out of the constructor. A c11_frame line with "via_unpack": true
+# starts its history from such an object (the model op does not read the key: it builds the frame from the field values, and
+# a decoded frame must show, from the first look on, what a constructed frame with the same values shows):
+#   "decoder": "frame"  TransferFrame.unpack(<octets of the frame per CCSDS 732.1-B-2, by the harness> + "sfx", frame type of
+#                       the construction rule, matching managed parameters)
+#   "decoder": "tfdf"   TransferFrame(header, TransferFrameDataField.unpack(<octets of the data field> + "sfx", truncated,
+#                       exact_len, frame type or None), insert zone, OCF, FECF) - the data field alone comes from the decoder
+# The length views are read IMMEDIATELY after decode, before anything else is called on the object (here: len(), tfdf.len(),
+# tfdf.header_len() against the octets the object was decoded from; then by _obs "after construction": reported length, data
+# field length, length field - before the first pack()), and the setter sequence of the line (`tfdz`,
+# set_frame_len_in_header) goes on with the decoded object.
+# The other kinds already start histories from decoded objects (Kind.decoded of TcKind / TmKind / CfdpKind, key "via_unpack"
+# of every generator family) and _obs reads `packet_len` and the header's length fields before the first pack().
+# ============================================================================================
+def _frame_from_decoder(a, constructed):
+    from spacepackets.uslp.frame import FrameType
+    how = a.get("decoder", "frame")
+    fixed = a["tfdf"]["rules"] in c17.FP_RULES
+    truncated = a["hdr"]["kind"] == "truncated"
+    ft = FrameType.FIXED if fixed else FrameType.VARIABLE
+    sfx = unhx(a.get("sfx") or "")
+    if how == "tfdf":
+        raw_t = c17.enc_tfdf(a["tfdf"])
+        tfdf = TransferFrameDataField.unpack(raw_tfdf=raw_t + sfx, truncated=truncated, exact_len=len(raw_t),
+                                             frame_type=ft if a.get("decode_ft", True) else None)
+        n_t, n_h = int(tfdf.len()), int(tfdf.header_len())
+        if n_t != len(raw_t) or n_h + len(tfdf.tfdz) != len(raw_t):
+            raise SelfCheckFailure(f"TransferFrameDataField.unpack({hx(raw_t + sfx)}, truncated={truncated}, exact_len={len(raw_t)}): "
+                                   f"len() read immediately after decode is {n_t} (header_len() {n_h}, data zone {len(tfdf.tfdz)} octets); "
+                                   f"the data field has {len(raw_t)} octets")
+        return TransferFrame(header=constructed.header, tfdf=tfdf, insert_zone=constructed.insert_zone,
+                             op_ctrl_field=constructed.op_ctrl_field, fecf=constructed.fecf)
+    raw = c17.enc_frame(a)
+    p = {"kind": 0 if fixed else 1, "len": len(raw), "iz": None if a["iz"] is None else len(unhx(a["iz"])),
+         "fecf": None if a["fecf"] is None else len(unhx(a["fecf"]))}
+    f = TransferFrame.unpack(raw_frame=raw + sfx, frame_type=ft, frame_properties=c17._props_new(p))
+    n_f, n_t, n_h = int(f.len()), int(f.tfdf.len()), int(f.tfdf.header_len())
+    n_data = len(c17.enc_tfdf(a["tfdf"]))
+    if n_f != len(raw) or n_t != n_data or n_h + len(f.tfdf.tfdz) != n_data:
+        raise SelfCheckFailure(f"TransferFrame.unpack({hx(raw + sfx)}, {ft}, matching managed parameters): read immediately after "
+                               f"decode, len() is {n_f} and tfdf.len() is {n_t} (header_len() {n_h}, data zone {len(f.tfdf.tfdz)} "
+                               f"octets); the frame has {len(raw)} octets, its data field {n_data}")
+    return f
+
+
+def decoded_frame_cases(rng: random.Random, thorough: bool) -> Iterator[Case]:
+    """every construction rule x regular / truncated header x insert zone x OCF x FECF x {frame decoder, data field decoder}:
+    the decoded object, looked at, then `tfdz` / set_frame_len_in_header in short fixed orders and in random sequences"""
+    g = GENS["frame"]
+    S = {"set": "frame_len"}
+    T = lambda n: {"set": "tfdz", "tfdz": rdata(rng, n)}  # noqa
+    menus = [lambda: [S], lambda: [T(rng.choice([0, 1, 7])), S], lambda: [S, T(rng.choice([0, 2, 40])), S],
+             lambda: [S, S, T(3)], lambda: [T(rng.randint(0, 300)), T(0), S, T(rng.choice([1, 64, 255]))],
+             lambda: [S, T(g.mx(a) + 1), S, T(5), S]]
+    k = rng.randrange(len(menus))
+    for rules in range(8):
+        for truncated in ((False, True) if rules in c17.VP_RULES else (False,)):
+            for iz in ((None, 0, 3) if thorough else (None, 3)):
+                for ocf in ((False,) if truncated else (False, True)):
+                    for fecf in (None, 2):
+                        for how in ("frame", "tfdf"):
+                            a, _ft = c17.wf_frame(rng, rules, truncated, iz, ocf, fecf, rng.choice([0, 1, 2, 3, 9, 40]))
+                            a.update(via_unpack=True, decoder=how, sfx=hx(rbytes(rng, rng.choice([0, 0, 1, 4]))))
+                            if how == "tfdf":
+                                a["decode_ft"] = rng.random() < 0.7
+                                if a["hdr"]["kind"] == "primary" and rng.random() < 0.5:
+                                    a["hdr"]["frame_len"] = rng.randint(0, 65535)      # (the header is the constructor's)
+                            k += 1
+                            seqs = [menus[k % len(menus)]()]
+                            if thorough or rng.random() < 0.5:
+                                seqs.append([g.step(rng, a, rng.choice([0.0, 0.0, 0.1])) for _ in range(rng.randint(1, 6))])
+                            for steps in seqs:
+                                if not thorough and any(_has_big_fill(s) for s in steps) and rng.random() < 0.6:
+                                    steps = [s for s in steps if not _has_big_fill(s)] or [S]   # quick: the model is slow on 64 KiB arguments
+                                c = seq_case("frame", a, steps, f"decoded-{how}")
+                                if rng.random() < 0.15:
+                                    c.op["twin"] = rng.choice(["before", "after", "both"])      # constructed bystanders next to the decoded frame
+                                yield c
+# ============================================================================================
+# END block DECODED USLP FRAMES
+# ============================================================================================
